@@ -182,6 +182,12 @@ def gen_stream(rng, kmax=8, maxpay=4096):
         if rng.random() < 0.4:
             n = rng.randrange(0, 64)
         n = min(n, maxpay)
+        if msgs and rng.random() < 0.3:
+            # the header of an earlier message of this stream again (same ids, type and code), payload new or the same:
+            # what a reader makes of a header must not depend on headers it has seen before
+            prev = rng.choice(msgs)
+            msgs.append(dict(prev, payload=prev["payload"] if rng.random() < 0.3 else gen.rbytes(rng, n)))
+            continue
         msgs.append(dict(sid=rng.randrange(1 << 16), mid=rng.randrange(1 << 16), cid=rng.randrange(1 << 16),
                          sess=rng.randrange(1 << 16), iv=rng.randrange(256), mt=rng.choice(refwire.MSG_TYPES),
                          rc=rng.choice(refwire.RET_CODES), payload=gen.rbytes(rng, n)))
